@@ -71,6 +71,7 @@ Section LocalGen.
   Proof.
     induction ds_level as [|d r IH]; intros cm s evs; cbn [forl_ filter map]; [now rewrite app_nil_r|].
     unfold bind. unfold gen_NBCGeneratorWithLocalMethod_forl3 at 1. dunf. unfold just_finished at 1.
+    rewrite ?(Nat.eqb_sym (mcount (ms s)) _).   (* `a == b` or `b == a` *)
     destruct (negb (d_active (dnth d (demes (ms s)))) && _); rewrite IH; [|reflexivity]. unfold cm_add. cbn [map]. now rewrite <- app_assoc.
   Qed.
   Lemma nbc_level' c fuel : forall demes_of_level cm s evs,
